@@ -112,6 +112,9 @@ pub fn run_c08(tier: &str, seed: u64, out: &mut dyn Write) {
             prev_len = d.len();
             evs.push(Ev::Dgram(a, d));
         }
+        // now and then a stop request somewhere in the script (the caller sets the flag again afterwards and the
+        // backend reads on: nothing may have been taken off the transport in between)
+        if r.chance(1, 6) { let at = r.below(evs.len() as u64 + 1) as usize; evs.insert(at, Ev::Stop); }
         emit(out, bufsize, &evs);
     }
 }
